@@ -289,7 +289,7 @@ fn cmd_check(prop: &str, tier: &str) -> i32 {
                                 nonce: format!("{}a", nonce),
                                 harness_error: None,
                                 samples: 100_000,
-                                pick: rng::derive(rf.seed, "aux", 0),
+                                pick: rf.pick,
                             };
                             let vs = oracle::judge(prop, &h, &mut aux, &mut t);
                             if let Some(e) = aux.harness_error {
@@ -346,7 +346,7 @@ fn cmd_check(prop: &str, tier: &str) -> i32 {
                             known_lines.insert(format!("KNOWN-FINDING: property={} {} [{}]", prop, k.what, k.key));
                         } else if !violations_out.iter().any(|(x, _)| x.key == v.key) && violations_out.len() < 5 {
                             let eff = if b.aux_samples > 0 { sc_samples.max(b.aux_samples) } else { 0 };
-                            let path = report_violation(&bins, prop, &v, &h, 0, violations_out.len(), eff, &[format!("directed scenario {}", name)]);
+                            let path = report_violation(&bins, prop, &v, &h, 0, violations_out.len(), eff, &[format!("directed scenario {}", name)], rng::derive(base_seed, &name, 8));
                             violations_out.push((v, path));
                         }
                     }
@@ -444,7 +444,7 @@ fn cmd_check(prop: &str, tier: &str) -> i32 {
             if let Some(h) = &r.hist {
                 let mut ft: Vec<String> = r.faults.fired.iter().map(|(k, n)| format!("{} x{}", k, n)).collect();
                 ft.extend(r.actors.iter().cloned());
-                let path = report_violation(&bins, prop, v, h, r.seed, violations_out.len(), b.aux_samples, &ft);
+                let path = report_violation(&bins, prop, v, h, r.seed, violations_out.len(), b.aux_samples, &ft, rng::derive(r.seed, "aux", 0));
                 violations_out.push((v.clone(), path));
             }
         }
@@ -541,6 +541,7 @@ fn report_violation(
     n: usize,
     aux_samples: usize,
     fault_trace: &[String],
+    pick: u64,
 ) -> PathBuf {
     let mut e1 = Executor::new(bins);
     let mut e2 = Executor::new(bins);
@@ -555,7 +556,7 @@ fn report_violation(
         prop: prop.to_string(),
         key: v.key.clone(),
         nonce,
-        pick: rng::derive(seed, "aux", 0),
+        pick,
         samples: if aux_samples > 0 { aux_samples.max(4096) } else { 0 },
         executions: 0,
         budget: 400,
@@ -576,6 +577,7 @@ fn report_violation(
         detail,
         fault_trace: fault_trace.to_vec(),
         original_steps: original,
+        pick,
     };
     let path = replay_path(&root(), v, seed, n);
     if let Err(e) = rf.save(&path) {
@@ -596,7 +598,7 @@ fn replay_fires(rf: &ReplayFile, e1: &mut Executor, e2: &mut Executor) -> Result
         harness_error: None,
         // a replay judges every candidate of the (minimised) schedule
         samples: 100_000,
-        pick: rng::derive(rf.seed, "aux", 0),
+        pick: rf.pick,
     };
     let vs = oracle::judge(&rf.property, &h, &mut aux, &mut t);
     if let Some(e) = aux.harness_error {
